@@ -23,7 +23,7 @@ m={
  "version":1,
  "setup_cmd":"./setup.sh",
  "hooks":{"guard":"BERMUDA_LEDGER_VERIF","enable":"no source hooks are needed: the harness observes the library from outside (PYTHONPATH=/repo)","baseline_off_cmd":"cd /repo && /venv/bin/python -m pytest -q -p no:cacheprovider --timeout=900","source_commits":[],"add_only":True},
- "engines":[{"name":"coq-model+tie","path":"/verif/check","serves_properties":sorted(claimed),"kind_free_text":"Coq 8.16 theorems about an executable Gallina model; model regenerated from /repo by Python-ast translators and/or compared with the implementation on generated inputs (coqc vm_compute) on every run"}],
+ "engines":[{"name":"coq-model+tie","path":"/verif/check","serves_properties":sorted(claimed),"kind_free_text":"Coq 8.16 theorems about an executable Gallina model; model regenerated from /repo by Python-ast translators and/or compared with the implementation on generated inputs (coqc vm_compute) on every run; every check also runs the shared layers of harness/common.main: method-form wiring theorem + battery, the T-stateless screen (operations are functions of their arguments), call-sequence oracles and the derived-input (==-equal variants) metamorphic oracle"}],
  "checks":checks,
  "not_applicable":na,
  "notes":"See DESIGN.md. known_findings.json lists genuine defects (status known|fixed)."
